@@ -8,6 +8,8 @@ import PyndlModel.Generated
 import Std.Data.String.ToNat
 import Mathlib.Data.List.Perm.Subperm
 import Mathlib.Data.List.Nodup
+import Mathlib.Data.List.TakeWhile
+import Mathlib.Data.List.Infix
 
 set_option linter.unusedSimpArgs false
 set_option linter.unusedVariables false
@@ -403,7 +405,7 @@ theorem safeWritePath_length (existing : List Str) (path : Str) :
 
 /-- the lines one entry contributes to the corpus: the cleaned sentences and the
     end-of-document marker for a readable document, nothing otherwise -/
-def docPieces (cfg : Cfg) : Entry → List Str
+def docPieces {τ : Type} (cfg : Cfg τ) : Entry → List Str
   | .doc d =>
     match readClean cfg d with
     | .ok ls => ls ++ [cfg.marker]
@@ -415,7 +417,7 @@ def isDangling : Entry → Bool
   | _ => false
 
 /-- a path the run can deal with: a document that parses, or a missing file -/
-def readable (cfg : Cfg) : Entry → Bool
+def readable {τ : Type} (cfg : Cfg τ) : Entry → Bool
   | .dangling => true
   | .doc d =>
     match readClean cfg d with
@@ -426,12 +428,12 @@ def readable (cfg : Cfg) : Entry → Bool
 /-- the line one entry contributes to the `.not_found` file -/
 def nfLine (p : Str × Entry) : List Str := if isDangling p.2 then [p.1 ++ ['\n']] else []
 
-def jobD (cfg : Cfg) (p : Str × Entry) : JobResult :=
+def jobD {τ : Type} (cfg : Cfg τ) (p : Str × Entry) : JobResult :=
   match runJob cfg p.1 p.2 with
   | .ok j => j
   | .error _ => .lines []
 
-theorem runJob_readable (cfg : Cfg) (p : Str × Entry) (h : readable cfg p.2 = true) :
+theorem runJob_readable {τ : Type} (cfg : Cfg τ) (p : Str × Entry) (h : readable cfg p.2 = true) :
     runJob cfg p.1 p.2 = .ok (jobD cfg p) ∧ pieces (jobD cfg p) = docPieces cfg p.2 ∧
       nfLines (jobD cfg p) = nfLine p := by
   obtain ⟨path, e⟩ := p
@@ -445,7 +447,7 @@ theorem runJob_readable (cfg : Cfg) (p : Str × Entry) (h : readable cfg p.2 = t
   | notGzip => exact Bool.noConfusion h
   | dir => exact Bool.noConfusion h
 
-theorem runJob_unreadable (cfg : Cfg) (p : Str × Entry) (h : readable cfg p.2 = false) :
+theorem runJob_unreadable {τ : Type} (cfg : Cfg τ) (p : Str × Entry) (h : readable cfg p.2 = false) :
     ∃ e, runJob cfg p.1 p.2 = .error e := by
   obtain ⟨path, e⟩ := p
   cases e with
@@ -459,12 +461,12 @@ theorem runJob_unreadable (cfg : Cfg) (p : Str × Entry) (h : readable cfg p.2 =
   | dir => exact ⟨.io, rfl⟩
 
 /-- the outcome of a run that gets past the guards, in closed form -/
-def okOutcome (cfg : Cfg) (outfile : Str) (w : World) (gz : List (Str × Entry)) : Outcome :=
+def okOutcome {τ : Type} (cfg : Cfg τ) (outfile : Str) (w : World) (gz : List (Str × Entry)) : Outcome :=
   ⟨none, some (gz.flatMap (fun p => docPieces cfg p.2)),
     if gz.flatMap nfLine = [] then none
     else some (safeWritePath w.files (outfile ++ notFoundSuffix), gz.flatMap nfLine)⟩
 
-theorem createCorpus_guards (cfg : Cfg) (n : Nat) (directory outfile : Str) (w : World)
+theorem createCorpus_guards {τ : Type} (cfg : Cfg τ) (n : Nat) (directory outfile : Str) (w : World)
     (tree : List (Str × Entry)) (hd : w.dirExists = true) (ho : outfile ∉ w.files) (hn : 0 < n) :
     createCorpus cfg n directory outfile w tree =
       match consume ((gzFiles directory tree).map (fun p => runJob cfg p.1 p.2)) with
@@ -480,7 +482,7 @@ theorem createCorpus_guards (cfg : Cfg) (n : Nat) (directory outfile : Str) (w :
   simp only [h1, h2, h3, if_false, imap_eq_map n hn, Bool.false_eq_true]
   rfl
 
-theorem createCorpus_ok (cfg : Cfg) (n : Nat) (directory outfile : Str) (w : World)
+theorem createCorpus_ok {τ : Type} (cfg : Cfg τ) (n : Nat) (directory outfile : Str) (w : World)
     (tree : List (Str × Entry)) (hd : w.dirExists = true) (ho : outfile ∉ w.files) (hn : 0 < n)
     (hr : ∀ p ∈ gzFiles directory tree, readable cfg p.2 = true) :
     createCorpus cfg n directory outfile w tree = okOutcome cfg outfile w (gzFiles directory tree) := by
@@ -508,7 +510,7 @@ theorem createCorpus_ok (cfg : Cfg) (n : Nat) (directory outfile : Str) (w : Wor
 
 /-- first unreadable file: the exception propagates, the corpus holds exactly
     the documents before it (in sorted order), no `.not_found` file is written -/
-theorem createCorpus_error (cfg : Cfg) (n : Nat) (directory outfile : Str) (w : World)
+theorem createCorpus_error {τ : Type} (cfg : Cfg τ) (n : Nat) (directory outfile : Str) (w : World)
     (tree : List (Str × Entry)) (hd : w.dirExists = true) (ho : outfile ∉ w.files) (hn : 0 < n)
     (pre post : List (Str × Entry)) (p : Str × Entry) (hs : gzFiles directory tree = pre ++ p :: post)
     (hr : ∀ q ∈ pre, readable cfg q.2 = true) (hp : readable cfg p.2 = false) :
@@ -540,10 +542,10 @@ theorem flatMap_nfLine_eq (gz : List (Str × Entry)) :
     · simp [flatMap_cons, nfLine, h, filter_cons, ← ih]
     · simp [flatMap_cons, nfLine, h, filter_cons, ← ih]
 
-theorem docPieces_dangling (cfg : Cfg) {e : Entry} (h : isDangling e = true) : docPieces cfg e = [] := by
+theorem docPieces_dangling {τ : Type} (cfg : Cfg τ) {e : Entry} (h : isDangling e = true) : docPieces cfg e = [] := by
   cases e <;> first | rfl | exact Bool.noConfusion h
 
-theorem flatMap_docPieces_filter (cfg : Cfg) (gz : List (Str × Entry)) :
+theorem flatMap_docPieces_filter {τ : Type} (cfg : Cfg τ) (gz : List (Str × Entry)) :
     gz.flatMap (fun p => docPieces cfg p.2)
       = (gz.filter (fun p => !isDangling p.2)).flatMap (fun p => docPieces cfg p.2) := by
   induction gz with
@@ -554,6 +556,972 @@ theorem flatMap_docPieces_filter (cfg : Cfg) (gz : List (Str × Entry)) :
         docPieces_dangling cfg h, List.nil_append, ih]
     · have h' : isDangling p.2 = false := by simpa using h
       simp only [flatMap_cons, filter_cons, h', Bool.not_false, if_true, ih]
+
+
+/-! ## the cleaning specification (corpus.py:63-103)
+
+What the output line of an `<s>` element is as a function of its words and time
+tags, stated without the recursion of the model. -/
+
+/-- what one `<w>` text contributes: itself if it is a punctuation mark (so it
+    attaches to what precedes it), otherwise a blank and the text -/
+def token (t : Str) : Str := if isPunct t then t else ' ' :: t
+
+theorem joinWords_some (ts : List Str) : joinWords (ts.map some) = .ok (ts.flatMap token) := by
+  induction ts with
+  | nil => rfl
+  | cons t ts ih => simp only [List.map_cons, joinWords, ih, token, List.flatMap_cons]
+
+theorem joinWords_error (ws : List (Option Str)) (h : none ∈ ws) : joinWords ws = .error .value := by
+  induction ws with
+  | nil => simp at h
+  | cons w ws ih =>
+    cases w with
+    | none => rfl
+    | some t =>
+      have : none ∈ ws := by simpa using h
+      simp only [joinWords, ih this]
+
+/-- a list of optional texts is either all texts or contains an empty `<w>` -/
+theorem all_some_or_none (ws : List (Option Str)) : (∃ ts : List Str, ws = ts.map some) ∨ none ∈ ws := by
+  induction ws with
+  | nil => exact Or.inl ⟨[], rfl⟩
+  | cons w ws ih =>
+    cases w with
+    | none => exact Or.inr (by simp)
+    | some t =>
+      rcases ih with ⟨ts, rfl⟩ | h
+      · exact Or.inl ⟨t :: ts, rfl⟩
+      · exact Or.inr (by simp [h])
+
+/-! ### `str.strip()` -/
+
+theorem strip_decomp (s : Str) :
+    ∃ pre post, s = pre ++ strip s ++ post ∧ (∀ c ∈ pre, isPySpace c = true) ∧
+      (∀ c ∈ post, isPySpace c = true) := by
+  refine ⟨s.takeWhile isPySpace, (((s.dropWhile isPySpace).reverse).takeWhile isPySpace).reverse, ?_, ?_, ?_⟩
+  · unfold strip
+    rw [List.append_assoc, ← List.reverse_append, List.takeWhile_append_dropWhile, List.reverse_reverse,
+      List.takeWhile_append_dropWhile]
+  · intro c hc; exact List.mem_takeWhile_imp hc
+  · intro c hc; exact List.mem_takeWhile_imp (List.mem_reverse.mp hc)
+
+/-- **strip, characterised**: whenever a string is blanks, then a middle part
+    that neither starts nor ends with a blank, then blanks, `strip` returns the
+    middle part (and by `strip_decomp` every string is of that form). -/
+theorem strip_eq_middle (pre m post : Str) (hpre : ∀ c ∈ pre, isPySpace c = true)
+    (hpost : ∀ c ∈ post, isPySpace c = true)
+    (hh : ∀ c, m.head? = some c → isPySpace c = false)
+    (hl : ∀ c, m.getLast? = some c → isPySpace c = false) :
+    strip (pre ++ m ++ post) = m := by
+  unfold strip
+  rw [List.append_assoc, List.dropWhile_append_of_pos hpre]
+  cases m with
+  | nil =>
+    have : List.dropWhile isPySpace ([] ++ post) = [] := by
+      rw [List.nil_append, List.dropWhile_eq_nil_iff]; exact hpost
+    rw [this]; rfl
+  | cons c m' =>
+    have hc : isPySpace c = false := hh c rfl
+    have h1 : List.dropWhile isPySpace (c :: m' ++ post) = c :: m' ++ post := by
+      simp [List.dropWhile_cons, hc]
+    rw [h1, List.reverse_append,
+      List.dropWhile_append_of_pos (fun x hx => hpost x (List.mem_reverse.mp hx))]
+    obtain ⟨x, xs, hx⟩ : ∃ x xs, (c :: m').reverse = x :: xs := by
+      cases h : (c :: m').reverse with
+      | nil => simp at h
+      | cons x xs => exact ⟨x, xs, rfl⟩
+    have hxl : (c :: m').getLast? = some x := by
+      rw [List.getLast?_eq_head?_reverse, hx]; rfl
+    have : isPySpace x = false := hl x hxl
+    rw [hx]
+    simp only [List.dropWhile_cons, this, Bool.false_eq_true, if_false]
+    rw [← hx, List.reverse_reverse]
+
+/-- the result of `strip` neither starts nor ends with a blank -/
+theorem strip_ends (s : Str) :
+    (∀ c, (strip s).head? = some c → isPySpace c = false) ∧
+    (∀ c, (strip s).getLast? = some c → isPySpace c = false) := by
+  unfold strip
+  constructor
+  · intro c hc
+    -- the result is a prefix of `dropWhile isPySpace s`, whose head is not a blank
+    have hpre : ((s.dropWhile isPySpace).reverse.dropWhile isPySpace).reverse <+: s.dropWhile isPySpace := by
+      have : ((s.dropWhile isPySpace).reverse.dropWhile isPySpace) <:+ (s.dropWhile isPySpace).reverse :=
+        List.dropWhile_suffix _
+      simpa using List.reverse_prefix.mpr this
+    obtain ⟨t, ht⟩ := hpre
+    cases hr : ((s.dropWhile isPySpace).reverse.dropWhile isPySpace).reverse with
+    | nil => rw [hr] at hc; simp at hc
+    | cons x xs =>
+      rw [hr] at hc ht
+      have hx : x = c := by simpa using hc
+      subst hx
+      have hhead : (s.dropWhile isPySpace).head? = some x := by rw [← ht]; rfl
+      have := List.head?_dropWhile_not isPySpace s
+      rw [hhead] at this
+      simpa using this
+  · intro c hc
+    rw [List.getLast?_reverse] at hc
+    have := List.head?_dropWhile_not isPySpace (s.dropWhile isPySpace).reverse
+    rw [hc] at this
+    simpa using this
+
+
+/-! ### the time tags of one sentence -/
+
+section CleanSpec
+variable {τ : Type}
+
+theorem parseTime_error_value {A : Arith τ} {v : Str} {e : Err} (h : parseTime A v = .error e) :
+    e = .value := by
+  unfold parseTime at h
+  split at h
+  · split at h
+    · cases h
+    · cases h; rfl
+  · cases h; rfl
+
+theorem isS_not_isE {t : TimeTag} (h : isS t = true) : isE t = false := by
+  unfold isS at h; unfold isE
+  have h' : t.id.getLast? = some 'S' := by simpa using h
+  rw [h']; decide
+
+/-- a tag the loop accepts: its value parses and its id ends in `S` or `E` -/
+def tagOk (cfg : Cfg τ) (t : TimeTag) : Bool :=
+  (parseTime cfg.arith t.value).toBool && (isS t || isE t)
+
+/-- `last_time` after a tag -/
+def stepLast (cfg : Cfg τ) (last : τ) (t : TimeTag) : τ :=
+  if isE t then (match parseTime cfg.arith t.value with | .ok x => x | .error _ => last) else last
+
+/-- **`last_time` after the tags `tags`** (it was `last` before): the time of
+    the last `E` tag among them, `last` if there is none. -/
+def lastE (cfg : Cfg τ) (last : τ) (tags : List TimeTag) : τ :=
+  match (tags.filter isE).getLast? with
+  | none => last
+  | some t => stepLast cfg last t
+
+/-- the tag `t`, met while `last_time = l`, starts a new paragraph: it is an
+    `S` tag and `time t - l > break_duration` -/
+def breaksAt (cfg : Cfg τ) (l : τ) (t : TimeTag) : Bool :=
+  isS t && (match parseTime cfg.arith t.value with
+    | .ok cur => cfg.arith.exceeds cur l
+    | .error _ => false)
+
+/-- **number of paragraph breaks of a sentence**: the tags `t` (with the tags
+    `pre` before it in the sentence) that start a new paragraph given the
+    `last_time` the tags before it leave -/
+def breakCount (cfg : Cfg τ) (last : τ) (tags : List TimeTag) : Nat :=
+  (tags.inits.zip tags).countP (fun p => breaksAt cfg (lastE cfg last p.1) p.2)
+
+theorem lastE_nil (cfg : Cfg τ) (last : τ) : lastE cfg last [] = last := rfl
+
+theorem stepLast_of_isE {cfg : Cfg τ} {t : TimeTag} (h : isE t = true) (l l' : τ)
+    (hp : (parseTime cfg.arith t.value).toBool = true) : stepLast cfg l t = stepLast cfg l' t := by
+  unfold stepLast
+  rw [if_pos h, if_pos h]
+  cases hq : parseTime cfg.arith t.value with
+  | ok x => rfl
+  | error e => rw [hq] at hp; cases hp
+
+theorem lastE_cons (cfg : Cfg τ) (last : τ) (t : TimeTag) (ts : List TimeTag)
+    (hok : ∀ u ∈ t :: ts, isE u = true → (parseTime cfg.arith u.value).toBool = true) :
+    lastE cfg last (t :: ts) = lastE cfg (stepLast cfg last t) ts := by
+  unfold lastE
+  by_cases ht : isE t = true
+  · rw [List.filter_cons_of_pos ht]
+    cases hf : (ts.filter isE).getLast? with
+    | none =>
+      have : ts.filter isE = [] := List.getLast?_eq_none_iff.mp hf
+      rw [this]; rfl
+    | some u =>
+      have hu : u ∈ ts.filter isE := List.mem_of_getLast? hf
+      have : (t :: ts.filter isE).getLast? = some u := by
+        rw [List.getLast?_cons, hf]; rfl
+      rw [this]
+      exact stepLast_of_isE (List.mem_filter.mp hu).2 _ _
+        (hok u (List.mem_cons_of_mem _ (List.mem_filter.mp hu).1) (List.mem_filter.mp hu).2)
+  · have ht' : isE t = false := by simpa using ht
+    rw [List.filter_cons_of_neg ht]
+    have : stepLast cfg last t = last := by unfold stepLast; rw [if_neg ht]
+    rw [this]
+
+theorem lastE_append (cfg : Cfg τ) (last : τ) (a b : List TimeTag)
+    (hok : ∀ u ∈ a ++ b, isE u = true → (parseTime cfg.arith u.value).toBool = true) :
+    lastE cfg last (a ++ b) = lastE cfg (lastE cfg last a) b := by
+  induction a generalizing last with
+  | nil => rfl
+  | cons t ts ih =>
+    rw [List.cons_append, lastE_cons cfg last t (ts ++ b) hok,
+      lastE_cons cfg last t ts (fun u hu => hok u (by
+        rcases List.mem_cons.mp hu with h | h
+        · exact h ▸ List.mem_cons_self
+        · exact List.mem_cons_of_mem _ (List.mem_append_left _ h))),
+      ih _ (fun u hu => hok u (List.mem_cons_of_mem _ hu))]
+
+theorem breakCount_cons (cfg : Cfg τ) (last : τ) (t : TimeTag) (ts : List TimeTag)
+    (hok : ∀ u ∈ t :: ts, isE u = true → (parseTime cfg.arith u.value).toBool = true) :
+    breakCount cfg last (t :: ts)
+      = (if breaksAt cfg last t then 1 else 0) + breakCount cfg (stepLast cfg last t) ts := by
+  unfold breakCount
+  rw [List.inits_cons, List.zip_cons_cons, List.countP_cons, List.zip_map_left, List.countP_map,
+    lastE_nil, Nat.add_comm]
+  congr 1
+  apply List.countP_congr
+  intro p hp
+  have hsub : p.1 <+: ts := by
+    have : p.1 ∈ ts.inits := (List.of_mem_zip hp).1
+    exact (List.mem_inits _ _).mp this
+  simp only [Function.comp, Prod.map, id]
+  rw [lastE_cons cfg last t p.1 (fun u hu => hok u (by
+    rcases List.mem_cons.mp hu with h | h
+    · exact h ▸ List.mem_cons_self
+    · exact List.mem_cons_of_mem _ (hsub.subset h)))]
+
+theorem timeStep_ok (cfg : Cfg τ) (r : Str) (last : τ) (t : TimeTag) (h : tagOk cfg t = true) :
+    timeStep cfg (r, last) t
+      = .ok ((if breaksAt cfg last t then '\n' :: r else r), stepLast cfg last t) := by
+  unfold tagOk at h
+  have hp := (Bool.and_eq_true _ _).mp h
+  unfold timeStep breaksAt stepLast
+  cases hq : parseTime cfg.arith t.value with
+  | error e => rw [hq] at hp; exact absurd hp.1 (by simp [Except.toBool])
+  | ok cur =>
+    simp only
+    by_cases hS : isS t = true
+    · have hE := isS_not_isE hS
+      by_cases hx : cfg.arith.exceeds cur last = true
+      · simp [hS, hE, hx]
+      · simp [hS, hE, hx]
+    · have hE : isE t = true := by
+        rcases (Bool.or_eq_true _ _).mp hp.2 with h | h
+        · exact absurd h hS
+        · exact h
+      simp [hS, hE]
+
+theorem timeStep_bad (cfg : Cfg τ) (st : Str × τ) (t : TimeTag) (h : tagOk cfg t = false) :
+    timeStep cfg st t = .error .value := by
+  unfold timeStep
+  cases hq : parseTime cfg.arith t.value with
+  | error e => simp only; rw [parseTime_error_value hq]
+  | ok cur =>
+    unfold tagOk at h
+    rw [hq] at h
+    have h' : (isS t || isE t) = false := by simpa [Except.toBool] using h
+    have hS : isS t = false := by
+      cases hs : isS t with
+      | false => rfl
+      | true => rw [hs] at h'; simp at h'
+    have hE : isE t = false := by
+      cases he : isE t with
+      | false => rfl
+      | true => rw [he] at h'; simp at h'
+    simp [hS, hE]
+
+theorem replicate_newline_shift (k : Nat) (r : Str) :
+    List.replicate k '\n' ++ '\n' :: r = List.replicate (1 + k) '\n' ++ r := by
+  rw [Nat.add_comm, List.replicate_succ', List.append_assoc]; rfl
+
+/-- **the time tags of a sentence, specified.** When every tag is acceptable the
+    loop prepends one `'\n'` per paragraph break and leaves `last_time` at the
+    time of the last `E` tag. -/
+theorem timeSteps_spec (cfg : Cfg τ) : ∀ (tags : List TimeTag) (r : Str) (last : τ),
+    (∀ t ∈ tags, tagOk cfg t = true) →
+    timeSteps cfg (r, last) tags
+      = .ok (List.replicate (breakCount cfg last tags) '\n' ++ r, lastE cfg last tags)
+  | [], r, last, _ => by simp [timeSteps, breakCount, lastE_nil]
+  | t :: ts, r, last, h => by
+    have hok : ∀ u ∈ t :: ts, isE u = true → (parseTime cfg.arith u.value).toBool = true := by
+      intro u hu _
+      have := h u hu
+      unfold tagOk at this
+      exact ((Bool.and_eq_true _ _).mp this).1
+    rw [timeSteps, timeStep_ok cfg r last t (h t List.mem_cons_self)]
+    simp only
+    rw [timeSteps_spec cfg ts _ _ (fun u hu => h u (List.mem_cons_of_mem _ hu)),
+      lastE_cons cfg last t ts hok, breakCount_cons cfg last t ts hok]
+    by_cases hb : breaksAt cfg last t = true
+    · simp only [hb, if_true]
+      rw [replicate_newline_shift]
+    · simp only [hb, if_false, Bool.false_eq_true, Nat.zero_add]
+
+/-- the first unacceptable tag of a sentence that is not skipped: `ValueError` -/
+theorem timeSteps_error (cfg : Cfg τ) : ∀ (pre : List TimeTag) (t : TimeTag) (post : List TimeTag)
+    (st : Str × τ), (∀ u ∈ pre, tagOk cfg u = true) → tagOk cfg t = false →
+    timeSteps cfg st (pre ++ t :: post) = .error .value
+  | [], t, post, st, _, hb => by simp [timeSteps, timeStep_bad cfg st t hb]
+  | u :: pre, t, post, (r, last), h, hb => by
+    rw [List.cons_append, timeSteps, timeStep_ok cfg r last u (h u List.mem_cons_self)]
+    exact timeSteps_error cfg pre t post _ (fun v hv => h v (List.mem_cons_of_mem _ hv)) hb
+
+/-! ### one `<s>` element -/
+
+/-- **an empty sentence is skipped**: nothing is yielded, `last_time` stays and
+    the time tags are not looked at (not even malformed ones). -/
+theorem sentence_empty (cfg : Cfg τ) (last : τ) (s : Sentence) (ts : List Str)
+    (hw : s.words = ts.map some) (he : strip (ts.flatMap token) = []) :
+    sentenceLine cfg last s = .ok (none, last) := by
+  unfold sentenceLine
+  rw [hw, joinWords_some]
+  simp [he]
+
+/-- **the line of a sentence.** Words `ts`, all present, whose joined text is
+    not blank, and acceptable time tags: the line is one `'\n'` per paragraph
+    break, then the tokens joined (punctuation without, every other word with
+    a blank before it) and stripped, then `'\n'`; `last_time` becomes the time
+    of the last `E` tag. -/
+theorem sentence_line (cfg : Cfg τ) (last : τ) (s : Sentence) (ts : List Str)
+    (hw : s.words = ts.map some) (hne : strip (ts.flatMap token) ≠ [])
+    (ht : ∀ t ∈ s.times, tagOk cfg t = true) :
+    sentenceLine cfg last s
+      = .ok (some (List.replicate (breakCount cfg last s.times) '\n' ++ strip (ts.flatMap token) ++ ['\n']),
+             lastE cfg last s.times) := by
+  unfold sentenceLine
+  rw [hw, joinWords_some]
+  simp only [hne, if_false]
+  rw [timeSteps_spec cfg s.times _ last ht]
+
+/-- a `<w>` without text: `ValueError` -/
+theorem sentence_word_error (cfg : Cfg τ) (last : τ) (s : Sentence) (h : none ∈ s.words) :
+    sentenceLine cfg last s = .error .value := by
+  unfold sentenceLine
+  rw [joinWords_error s.words h]
+
+/-- an unacceptable time tag in a sentence that is not skipped: `ValueError` -/
+theorem sentence_tag_error (cfg : Cfg τ) (last : τ) (s : Sentence) (ts : List Str)
+    (hw : s.words = ts.map some) (hne : strip (ts.flatMap token) ≠ [])
+    (pre post : List TimeTag) (t : TimeTag) (hs : s.times = pre ++ t :: post)
+    (hpre : ∀ u ∈ pre, tagOk cfg u = true) (hb : tagOk cfg t = false) :
+    sentenceLine cfg last s = .error .value := by
+  unfold sentenceLine
+  rw [hw, joinWords_some]
+  simp only [hne, if_false]
+  rw [hs, timeSteps_error cfg pre t post _ hpre hb]
+
+end CleanSpec
+
+
+/-! ### the whole document -/
+
+section DocSpec
+variable {τ : Type}
+
+/-- the sentence is not skipped: all its words have text and the joined text is not blank -/
+def kept (s : Sentence) : Bool :=
+  match joinWords s.words with
+  | .ok j => !(strip j).isEmpty
+  | .error _ => false
+
+/-- the time tags the reader looks at: those of the sentences that are not skipped -/
+def keptTags (d : Document) : List TimeTag := (d.filter kept).flatMap (·.times)
+
+/-- a sentence the reader gets through: no `<w>` without text, and, unless it
+    is skipped, only acceptable time tags -/
+def regular (cfg : Cfg τ) (s : Sentence) : Bool :=
+  !s.words.contains none && (!kept s || s.times.all (tagOk cfg))
+
+/-- **the line a sentence contributes** when `last_time = last` on entry
+    (`none`: skipped): `'\n'` per paragraph break, the stripped joined words, `'\n'` -/
+def lineOf (cfg : Cfg τ) (last : τ) (s : Sentence) : Option Str :=
+  match joinWords s.words with
+  | .ok j =>
+    if strip j = [] then none
+    else some (List.replicate (breakCount cfg last s.times) '\n' ++ strip j ++ ['\n'])
+  | .error _ => none
+
+theorem sentenceLine_regular (cfg : Cfg τ) (last : τ) (s : Sentence) (h : regular cfg s = true) :
+    sentenceLine cfg last s
+      = .ok (lineOf cfg last s, if kept s then lastE cfg last s.times else last) := by
+  unfold regular at h
+  obtain ⟨h1, h2⟩ := (Bool.and_eq_true _ _).mp h
+  have hnone : none ∉ s.words := by simpa using h1
+  rcases all_some_or_none s.words with ⟨ts, hw⟩ | hn
+  · by_cases he : strip (ts.flatMap token) = []
+    · rw [sentence_empty cfg last s ts hw he]
+      have hk : kept s = false := by unfold kept; rw [hw, joinWords_some]; simp [he]
+      have hl : lineOf cfg last s = none := by unfold lineOf; rw [hw, joinWords_some]; simp [he]
+      rw [hk, hl]; rfl
+    · have hk : kept s = true := by unfold kept; rw [hw, joinWords_some]; simpa using he
+      have ht : ∀ t ∈ s.times, tagOk cfg t = true := by
+        rw [hk] at h2
+        simpa using h2
+      rw [sentence_line cfg last s ts hw he ht]
+      have hl : lineOf cfg last s
+          = some (List.replicate (breakCount cfg last s.times) '\n' ++ strip (ts.flatMap token) ++ ['\n']) := by
+        unfold lineOf; rw [hw, joinWords_some]; simp [he]
+      rw [hk, hl]; rfl
+  · exact absurd hn hnone
+
+theorem exists_first_bad {α : Type} (p : α → Bool) (l : List α) (h : l.all p = false) :
+    ∃ pre t post, l = pre ++ t :: post ∧ (∀ u ∈ pre, p u = true) ∧ p t = false := by
+  induction l with
+  | nil => simp at h
+  | cons a l ih =>
+    by_cases ha : p a = true
+    · have : l.all p = false := by simpa [List.all_cons, ha] using h
+      obtain ⟨pre, t, post, e, h1, h2⟩ := ih this
+      refine ⟨a :: pre, t, post, by rw [e]; rfl, ?_, h2⟩
+      intro u hu
+      rcases List.mem_cons.mp hu with rfl | hu
+      · exact ha
+      · exact h1 u hu
+    · exact ⟨[], a, l, rfl, by simp, by simpa using ha⟩
+
+theorem sentenceLine_irregular (cfg : Cfg τ) (last : τ) (s : Sentence) (h : regular cfg s = false) :
+    sentenceLine cfg last s = .error .value := by
+  rcases all_some_or_none s.words with ⟨ts, hw⟩ | hn
+  · unfold regular at h
+    have hnone : s.words.contains none = false := by
+      rw [hw]; simp
+    rw [hnone] at h
+    have h2 : (!kept s || s.times.all (tagOk cfg)) = false := by simpa using h
+    have hk : kept s = true := by
+      cases hk : kept s with
+      | true => rfl
+      | false => rw [hk] at h2; simp at h2
+    have hall : s.times.all (tagOk cfg) = false := by
+      rw [hk] at h2; simpa using h2
+    have hne : strip (ts.flatMap token) ≠ [] := by
+      unfold kept at hk; rw [hw, joinWords_some] at hk; simpa using hk
+    obtain ⟨pre, t, post, e, h1, hb⟩ := exists_first_bad (tagOk cfg) s.times hall
+    exact sentence_tag_error cfg last s ts hw hne pre post t e h1 hb
+  · exact sentence_word_error cfg last s hn
+
+theorem keptTags_cons (s : Sentence) (d : Document) :
+    keptTags (s :: d) = if kept s then s.times ++ keptTags d else keptTags d := by
+  unfold keptTags
+  by_cases h : kept s = true
+  · rw [List.filter_cons_of_pos h, List.flatMap_cons, if_pos h]
+  · rw [List.filter_cons_of_neg h, if_neg h]
+
+theorem regular_tags_parse (cfg : Cfg τ) (d : Document) (h : ∀ s ∈ d, regular cfg s = true) :
+    ∀ u ∈ keptTags d, tagOk cfg u = true := by
+  intro u hu
+  unfold keptTags at hu
+  obtain ⟨s, hs, hus⟩ := List.mem_flatMap.mp hu
+  have hsd := (List.mem_filter.mp hs)
+  have hr := h s hsd.1
+  unfold regular at hr
+  have h2 := ((Bool.and_eq_true _ _).mp hr).2
+  rw [hsd.2] at h2
+  have : ∀ t ∈ s.times, tagOk cfg t = true := by simpa using h2
+  exact this u hus
+
+theorem tagOk_parse {cfg : Cfg τ} {u : TimeTag} (h : tagOk cfg u = true) :
+    (parseTime cfg.arith u.value).toBool = true := by
+  unfold tagOk at h; exact ((Bool.and_eq_true _ _).mp h).1
+
+/-- **the cleaned document, specified.** For a document the reader gets
+    through, the lines are, in order, the lines of the sentences that are not
+    skipped, where the `last_time` a sentence starts from is the time of the
+    last `E` tag among the tags of the kept sentences before it (`0.0` if none). -/
+theorem readCleanFrom_spec (cfg : Cfg τ) : ∀ (d : Document) (last : τ),
+    (∀ s ∈ d, regular cfg s = true) →
+    readCleanFrom cfg last d
+      = .ok ((d.inits.zip d).filterMap (fun p => lineOf cfg (lastE cfg last (keptTags p.1)) p.2))
+  | [], _, _ => rfl
+  | s :: rest, last, h => by
+    have hs := h s List.mem_cons_self
+    have hrest : ∀ x ∈ rest, regular cfg x = true := fun x hx => h x (List.mem_cons_of_mem _ hx)
+    rw [readCleanFrom, sentenceLine_regular cfg last s hs]
+    simp only
+    rw [readCleanFrom_spec cfg rest _ hrest]
+    rw [List.inits_cons, List.zip_cons_cons, List.filterMap_cons, List.zip_map_left, List.filterMap_map]
+    have hcongr : ((rest.inits.zip rest).filterMap
+          ((fun p => lineOf cfg (lastE cfg last (keptTags p.1)) p.2) ∘ Prod.map (fun t => s :: t) id))
+        = (rest.inits.zip rest).filterMap (fun p =>
+            lineOf cfg (lastE cfg (if kept s then lastE cfg last s.times else last) (keptTags p.1)) p.2) := by
+      apply List.filterMap_congr
+      intro p hp
+      have hsub : p.1 <+: rest := (List.mem_inits _ _).mp (List.of_mem_zip hp).1
+      have hreg : ∀ x ∈ p.1, regular cfg x = true := fun x hx => hrest x (hsub.subset hx)
+      simp only [Function.comp, Prod.map, id]
+      rw [keptTags_cons]
+      by_cases hk : kept s = true
+      · simp only [hk, if_true]
+        rw [lastE_append]
+        intro u hu _
+        rcases List.mem_append.mp hu with hu | hu
+        · have : regular cfg s = true := hs
+          unfold regular at this
+          have h3 := ((Bool.and_eq_true _ _).mp this).2
+          rw [hk] at h3
+          have h4 : ∀ t ∈ s.times, tagOk cfg t = true := by simpa using h3
+          exact tagOk_parse (h4 u hu)
+        · exact tagOk_parse (regular_tags_parse cfg p.1 hreg u hu)
+      · simp only [hk, if_false, Bool.false_eq_true]
+    rw [hcongr]
+    simp only [keptTags, List.filter_nil, List.flatMap_nil, lastE_nil]
+    cases lineOf cfg last s <;> rfl
+
+/-- the first sentence the reader does not get through: `ValueError`, no line
+    of the document is delivered -/
+theorem readCleanFrom_error (cfg : Cfg τ) : ∀ (pre : Document) (s : Sentence) (post : Document) (last : τ),
+    (∀ x ∈ pre, regular cfg x = true) → regular cfg s = false →
+    readCleanFrom cfg last (pre ++ s :: post) = .error .value
+  | [], s, post, last, _, hb => by
+    rw [List.nil_append, readCleanFrom, sentenceLine_irregular cfg last s hb]
+  | x :: pre, s, post, last, h, hb => by
+    rw [List.cons_append, readCleanFrom, sentenceLine_regular cfg last x (h x List.mem_cons_self)]
+    simp only
+    rw [readCleanFrom_error cfg pre s post _ (fun y hy => h y (List.mem_cons_of_mem _ hy)) hb]
+
+/-- so a document either is read completely or raises `ValueError` -/
+theorem readClean_total (cfg : Cfg τ) (d : Document) :
+    (d.all (regular cfg) = true ∧
+      readClean cfg d = .ok ((d.inits.zip d).filterMap
+        (fun p => lineOf cfg (lastE cfg cfg.arith.zero (keptTags p.1)) p.2))) ∨
+    (d.all (regular cfg) = false ∧ readClean cfg d = .error .value) := by
+  cases h : d.all (regular cfg) with
+  | true =>
+    exact Or.inl ⟨rfl, readCleanFrom_spec cfg d _ (by simpa using h)⟩
+  | false =>
+    obtain ⟨pre, s, post, e, h1, hb⟩ := exists_first_bad (regular cfg) d h
+    exact Or.inr ⟨rfl, by unfold readClean; rw [e]; exact readCleanFrom_error cfg pre s post _ h1 hb⟩
+
+end DocSpec
+
+
+/-! ## two arithmetics that agree on a document give the same result
+
+`CompareAgrees A B d` (PyndlModel/Corpus.lean) is all that is needed for the
+reader over `A` and the reader over `B` to return the same lines — or raise the
+same exception — on `d`; in particular for `A` the doubles of the code and `B`
+the rationals of the specification. -/
+
+section Agree
+variable {τ σ : Type}
+
+/-- the `last_time` values the two readers can hold at the same moment -/
+def RelLast (A : Arith τ) (B : Arith σ) (d : Document) (l : τ) (l' : σ) : Prop :=
+  (l, l') ∈ (A.zero, B.zero) :: pairedTimes A B isE d
+
+def ResRel {α : Type} (R : τ → σ → Prop) : Except Err (α × τ) → Except Err (α × σ) → Prop
+  | .ok (a, l), .ok (a', l') => a = a' ∧ R l l'
+  | .error e, .error e' => e = e'
+  | _, _ => False
+
+theorem mem_pairedTimes {A : Arith τ} {B : Arith σ} {sel : TimeTag → Bool} {d : Document}
+    {t : TimeTag} {x : τ} {y : σ} (ht : t ∈ allTags d) (hs : sel t = true)
+    (hx : parseTime A t.value = .ok x) (hy : parseTime B t.value = .ok y) :
+    (x, y) ∈ pairedTimes A B sel d := by
+  unfold pairedTimes
+  exact List.mem_filterMap.mpr ⟨t, ht, by simp [hs, hx, hy]⟩
+
+theorem timeStep_agree (cfgA : Cfg τ) (cfgB : Cfg σ) (d : Document)
+    (h : CompareAgrees cfgA.arith cfgB.arith d) (t : TimeTag) (ht : t ∈ allTags d)
+    (r : Str) (l : τ) (l' : σ) (hl : RelLast cfgA.arith cfgB.arith d l l') :
+    ResRel (RelLast cfgA.arith cfgB.arith d) (timeStep cfgA (r, l) t) (timeStep cfgB (r, l') t) := by
+  have hb := h.1 t ht
+  unfold timeStep
+  cases hx : parseTime cfgA.arith t.value with
+  | error e =>
+    cases hy : parseTime cfgB.arith t.value with
+    | error e' =>
+      simp only [ResRel]
+      rw [parseTime_error_value hx, parseTime_error_value hy]
+    | ok y => rw [hx, hy] at hb; simp [Except.toBool] at hb
+  | ok x =>
+    cases hy : parseTime cfgB.arith t.value with
+    | error e' => rw [hx, hy] at hb; simp [Except.toBool] at hb
+    | ok y =>
+      simp only
+      by_cases hS : isS t = true
+      · have hE := isS_not_isE hS
+        have hmem : (x, y) ∈ pairedTimes cfgA.arith cfgB.arith (fun t => !isE t) d :=
+          mem_pairedTimes ht (by simp [hE]) hx hy
+        have hex := h.2 (x, y) hmem (l, l') hl
+        simp only at hex
+        by_cases hA : cfgA.arith.exceeds x l = true
+        · have hB : cfgB.arith.exceeds y l' = true := by rw [← hex]; exact hA
+          simp only [hS, hA, hB, and_self, if_true, ResRel]
+          exact ⟨trivial, hl⟩
+        · have hB : ¬ cfgB.arith.exceeds y l' = true := by rw [← hex]; exact hA
+          simp only [hS, hE, hA, hB, and_false, if_false, if_true, Bool.false_eq_true, ResRel]
+          exact ⟨trivial, hl⟩
+      · have hS' : isS t = false := by simpa using hS
+        by_cases hE : isE t = true
+        · have hr : RelLast cfgA.arith cfgB.arith d x y :=
+            List.mem_cons_of_mem _ (mem_pairedTimes ht hE hx hy)
+          simp [hS', hE, ResRel, hr]
+        · have hE' : isE t = false := by simpa using hE
+          simp [hS', hE', ResRel]
+
+theorem timeSteps_agree (cfgA : Cfg τ) (cfgB : Cfg σ) (d : Document)
+    (h : CompareAgrees cfgA.arith cfgB.arith d) : ∀ (ts : List TimeTag), (∀ t ∈ ts, t ∈ allTags d) →
+    ∀ (r : Str) (l : τ) (l' : σ), RelLast cfgA.arith cfgB.arith d l l' →
+    ResRel (RelLast cfgA.arith cfgB.arith d) (timeSteps cfgA (r, l) ts) (timeSteps cfgB (r, l') ts)
+  | [], _, r, l, l', hl => by simp only [timeSteps, ResRel]; exact ⟨trivial, hl⟩
+  | t :: ts, hts, r, l, l', hl => by
+    have h1 := timeStep_agree cfgA cfgB d h t (hts t List.mem_cons_self) r l l' hl
+    rw [timeSteps, timeSteps]
+    cases hA : timeStep cfgA (r, l) t with
+    | error e =>
+      cases hB : timeStep cfgB (r, l') t with
+      | error e' => rw [hA, hB] at h1; simpa [ResRel] using h1
+      | ok b => rw [hA, hB] at h1; simp [ResRel] at h1
+    | ok a =>
+      cases hB : timeStep cfgB (r, l') t with
+      | error e' => rw [hA, hB] at h1; obtain ⟨a1, a2⟩ := a; simp [ResRel] at h1
+      | ok b =>
+        rw [hA, hB] at h1
+        obtain ⟨a1, a2⟩ := a
+        obtain ⟨b1, b2⟩ := b
+        simp only [ResRel] at h1
+        obtain ⟨e, hr⟩ := h1
+        subst e
+        exact timeSteps_agree cfgA cfgB d h ts (fun u hu => hts u (List.mem_cons_of_mem _ hu)) a1 a2 b2 hr
+
+theorem sentenceLine_agree (cfgA : Cfg τ) (cfgB : Cfg σ) (d : Document)
+    (h : CompareAgrees cfgA.arith cfgB.arith d) (s : Sentence) (hs : s ∈ d)
+    (l : τ) (l' : σ) (hl : RelLast cfgA.arith cfgB.arith d l l') :
+    ResRel (RelLast cfgA.arith cfgB.arith d) (sentenceLine cfgA l s) (sentenceLine cfgB l' s) := by
+  unfold sentenceLine
+  cases hj : joinWords s.words with
+  | error e => simp [ResRel]
+  | ok j =>
+    simp only
+    by_cases he : strip j = []
+    · simp only [he, if_true, ResRel]; exact ⟨trivial, hl⟩
+    · simp only [he, if_false]
+      have hts : ∀ t ∈ s.times, t ∈ allTags d := fun t ht =>
+        List.mem_flatMap.mpr ⟨s, hs, ht⟩
+      have h1 := timeSteps_agree cfgA cfgB d h s.times hts (strip j) l l' hl
+      cases hA : timeSteps cfgA (strip j, l) s.times with
+      | error e =>
+        cases hB : timeSteps cfgB (strip j, l') s.times with
+        | error e' => rw [hA, hB] at h1; simpa [ResRel] using h1
+        | ok b => rw [hA, hB] at h1; simp [ResRel] at h1
+      | ok a =>
+        obtain ⟨a1, a2⟩ := a
+        cases hB : timeSteps cfgB (strip j, l') s.times with
+        | error e' => rw [hA, hB] at h1; simp [ResRel] at h1
+        | ok b =>
+          obtain ⟨b1, b2⟩ := b
+          rw [hA, hB] at h1
+          simp only [ResRel] at h1 ⊢
+          exact ⟨by rw [h1.1], h1.2⟩
+
+theorem readCleanFrom_agree (cfgA : Cfg τ) (cfgB : Cfg σ) (d : Document)
+    (h : CompareAgrees cfgA.arith cfgB.arith d) : ∀ (ss : Document), (∀ s ∈ ss, s ∈ d) →
+    ∀ (l : τ) (l' : σ), RelLast cfgA.arith cfgB.arith d l l' →
+    readCleanFrom cfgA l ss = readCleanFrom cfgB l' ss
+  | [], _, _, _, _ => rfl
+  | s :: ss, hss, l, l', hl => by
+    have h1 := sentenceLine_agree cfgA cfgB d h s (hss s List.mem_cons_self) l l' hl
+    rw [readCleanFrom, readCleanFrom]
+    cases hA : sentenceLine cfgA l s with
+    | error e =>
+      cases hB : sentenceLine cfgB l' s with
+      | error e' => rw [hA, hB] at h1; simp only [ResRel] at h1; rw [h1]
+      | ok b => rw [hA, hB] at h1; simp [ResRel] at h1
+    | ok a =>
+      obtain ⟨a1, a2⟩ := a
+      cases hB : sentenceLine cfgB l' s with
+      | error e' => rw [hA, hB] at h1; simp [ResRel] at h1
+      | ok b =>
+        obtain ⟨b1, b2⟩ := b
+        rw [hA, hB] at h1
+        simp only [ResRel] at h1
+        obtain ⟨e, hr⟩ := h1
+        subst e
+        simp only
+        rw [readCleanFrom_agree cfgA cfgB d h ss (fun x hx => hss x (List.mem_cons_of_mem _ hx)) a2 b2 hr]
+
+/-- **readClean_agree.** Two arithmetics that accept the same time values of
+    the document and answer its paragraph tests alike read it alike (same
+    lines, or the same exception). -/
+theorem readClean_agree (cfgA : Cfg τ) (cfgB : Cfg σ) (d : Document)
+    (h : CompareAgrees cfgA.arith cfgB.arith d) : readClean cfgA d = readClean cfgB d :=
+  readCleanFrom_agree cfgA cfgB d h d (fun _ hs => hs) _ _ List.mem_cons_self
+
+/-- `P` holds of the entry if it is a document -/
+def docProp (P : Document → Prop) : Entry → Prop
+  | .doc d => P d
+  | _ => True
+
+instance (P : Document → Prop) [DecidablePred P] : DecidablePred (docProp P) := fun e => by
+  cases e <;> simp only [docProp] <;> infer_instance
+
+/-- every document among the `.gz` files of the tree satisfies `P` (decidable
+    when `P` is) -/
+def AllDocs (P : Document → Prop) (gz : List (Str × Entry)) : Prop :=
+  ∀ p ∈ gz, docProp P p.2
+
+instance (P : Document → Prop) [DecidablePred P] (gz : List (Str × Entry)) : Decidable (AllDocs P gz) := by
+  unfold AllDocs; infer_instance
+
+theorem AllDocs.doc {P : Document → Prop} {gz : List (Str × Entry)} (h : AllDocs P gz)
+    {p : Str × Entry} (hp : p ∈ gz) {d : Document} (e : p.2 = .doc d) : P d := by
+  have := h p hp
+  rw [e] at this
+  exact this
+
+theorem runJob_agree (cfgA : Cfg τ) (cfgB : Cfg σ) (hm : cfgA.marker = cfgB.marker) (path : Str)
+    (e : Entry) (h : ∀ d, e = .doc d → CompareAgrees cfgA.arith cfgB.arith d) :
+    runJob cfgA path e = runJob cfgB path e := by
+  cases e with
+  | doc d => simp only [runJob, readClean_agree cfgA cfgB d (h d rfl), hm]
+  | dangling => rfl
+  | notGzip => rfl
+  | dir => rfl
+
+theorem docPieces_agree (cfgA : Cfg τ) (cfgB : Cfg σ) (hm : cfgA.marker = cfgB.marker)
+    (e : Entry) (h : ∀ d, e = .doc d → CompareAgrees cfgA.arith cfgB.arith d) :
+    docPieces cfgA e = docPieces cfgB e := by
+  cases e with
+  | doc d => simp only [docPieces, readClean_agree cfgA cfgB d (h d rfl), hm]
+  | dangling => rfl
+  | notGzip => rfl
+  | dir => rfl
+
+theorem readable_agree (cfgA : Cfg τ) (cfgB : Cfg σ)
+    (e : Entry) (h : ∀ d, e = .doc d → CompareAgrees cfgA.arith cfgB.arith d) :
+    readable cfgA e = readable cfgB e := by
+  cases e with
+  | doc d => simp only [readable, readClean_agree cfgA cfgB d (h d rfl)]
+  | dangling => rfl
+  | notGzip => rfl
+  | dir => rfl
+
+/-- **createCorpus_agree.** If the two arithmetics agree on every document
+    among the `.gz` files, the two runs have the same outcome. -/
+theorem createCorpus_agree (cfgA : Cfg τ) (cfgB : Cfg σ) (hm : cfgA.marker = cfgB.marker)
+    (n : Nat) (directory outfile : Str) (w : World) (tree : List (Str × Entry))
+    (h : AllDocs (CompareAgrees cfgA.arith cfgB.arith) (gzFiles directory tree)) :
+    createCorpus cfgA n directory outfile w tree = createCorpus cfgB n directory outfile w tree := by
+  unfold createCorpus
+  by_cases h1 : (!w.dirExists) = true
+  · rw [if_pos h1, if_pos h1]
+  · by_cases h2 : w.files.contains outfile = true
+    · rw [if_neg h1, if_pos h2, if_neg h1, if_pos h2]
+    · by_cases h3 : n = 0
+      · rw [if_neg h1, if_neg h2, if_pos h3, if_neg h1, if_neg h2, if_pos h3]
+      · rw [if_neg h1, if_neg h2, if_neg h3, if_neg h1, if_neg h2, if_neg h3]
+        have hn : 0 < n := Nat.pos_of_ne_zero h3
+        have : imap n (fun p => runJob cfgA p.1 p.2) (gzFiles directory tree)
+            = imap n (fun p => runJob cfgB p.1 p.2) (gzFiles directory tree) := by
+          rw [imap_eq_map n hn, imap_eq_map n hn]
+          apply List.map_congr_left
+          intro p hp
+          exact runJob_agree cfgA cfgB hm p.1 p.2 (fun d e => h.doc hp e)
+        simp only [this]
+
+end Agree
+
+
+/-! ## `_parse_time_string`: both branches, and the literal domain -/
+
+section ParseTime
+variable {τ : Type}
+
+/-- `time_string.replace(',', ':').split(':')` -/
+def fields (v : Str) : List Str := splitOnChar ':' (v.map (fun c => if c = ',' then ':' else c))
+
+/-- **`_parse_time_string`, both branches.** Either the string has exactly four
+    fields that `float` accepts, and the result is the time formed from them, or
+    it has not (a different number of fields, or a field `float` rejects) and
+    `ValueError` is raised. -/
+theorem parseTime_spec (A : Arith τ) (v : Str) :
+    (∃ h m s f a b c e, fields v = [h, m, s, f] ∧ A.lit h = some a ∧ A.lit m = some b ∧
+        A.lit s = some c ∧ A.lit f = some e ∧ parseTime A v = .ok (A.time a b c e)) ∨
+    (((fields v).length ≠ 4 ∨ ∃ x ∈ fields v, A.lit x = none) ∧ parseTime A v = .error .value) := by
+  unfold parseTime
+  change _ ∨ (_ ∧ (match fields v with
+    | [h, m, sec, f] =>
+      (match A.lit h, A.lit m, A.lit sec, A.lit f with
+      | some h, some m, some sec, some f => Except.ok (A.time h m sec f)
+      | _, _, _, _ => Except.error Err.value)
+    | _ => Except.error Err.value) = _)
+  rcases hf : fields v with _ | ⟨h, _ | ⟨m, _ | ⟨s, _ | ⟨f, _ | ⟨g, r⟩⟩⟩⟩⟩
+  · exact Or.inr ⟨Or.inl (by simp), rfl⟩
+  · exact Or.inr ⟨Or.inl (by simp), rfl⟩
+  · exact Or.inr ⟨Or.inl (by simp), rfl⟩
+  · exact Or.inr ⟨Or.inl (by simp), rfl⟩
+  · cases ha : A.lit h with
+    | none => exact Or.inr ⟨Or.inr ⟨h, by simp, ha⟩, by simp [ha]⟩
+    | some a =>
+      cases hb : A.lit m with
+      | none => exact Or.inr ⟨Or.inr ⟨m, by simp, hb⟩, by simp [ha, hb]⟩
+      | some b =>
+        cases hc : A.lit s with
+        | none => exact Or.inr ⟨Or.inr ⟨s, by simp, hc⟩, by simp [ha, hb, hc]⟩
+        | some c =>
+          cases he : A.lit f with
+          | none => exact Or.inr ⟨Or.inr ⟨f, by simp, he⟩, by simp [ha, hb, hc, he]⟩
+          | some e =>
+            refine Or.inl ⟨h, m, s, f, a, b, c, e, ?_, ha, hb, hc, he, ?_⟩
+            · rfl
+            · unfold fields at hf; simp [hf, ha, hb, hc, he]
+  · exact Or.inr ⟨Or.inl (by simp), rfl⟩
+
+theorem digitVal_isSome (c : Char) : (digitVal c).isSome = isAsciiDigit c := by
+  unfold digitVal isAsciiDigit
+  by_cases h : 48 ≤ c.toNat ∧ c.toNat ≤ 57
+  · rw [if_pos h]; simp [h.1, h.2]
+  · rw [if_neg h]
+    by_cases h1 : 48 ≤ c.toNat
+    · have : ¬ c.toNat ≤ 57 := fun h2 => h ⟨h1, h2⟩
+      simp [h1, this]
+    · simp [h1]
+
+theorem foldlM_digits_isSome : ∀ (cs : Str) (acc : Nat),
+    (cs.foldlM (fun acc c => (digitVal c).map (fun d => acc * 10 + d)) acc).isSome = cs.all isAsciiDigit
+  | [], _ => rfl
+  | c :: cs, acc => by
+    rw [List.foldlM_cons, List.all_cons, ← digitVal_isSome]
+    cases hd : digitVal c with
+    | none => rfl
+    | some d => simpa using foldlM_digits_isSome cs (acc * 10 + d)
+
+/-- the literal reader of the executable arithmetics accepts exactly the
+    non-empty strings of ASCII digits -/
+theorem parseNat_isSome (f : Str) : (parseNat f).isSome = (!f.isEmpty && f.all isAsciiDigit) := by
+  cases f with
+  | nil => rfl
+  | cons c cs => exact foldlM_digits_isSome (c :: cs) 0
+
+theorem lit_rat_none (fps : Nat) (brk : Rat) (f : Str) :
+    (ratArith fps brk).lit f = none ↔ parseNat f = none := by
+  simp only [ratArith]; cases parseNat f <;> simp
+
+theorem lit_float_none (fps : Nat) (brk : Float) (f : Str) :
+    (floatArith fps brk).lit f = none ↔ parseNat f = none := by
+  simp only [floatArith]; cases parseNat f <;> simp
+
+theorem digit_not_space {c : Char} (h : isAsciiDigit c = true) : isFloatSpace c = false := by
+  unfold isAsciiDigit at h; unfold isFloatSpace
+  have h' : 48 ≤ c.toNat ∧ c.toNat ≤ 57 := by simpa using h
+  have h1 : ¬ c.toNat ≤ 13 := by omega
+  have h2 : ¬ c.toNat = 32 := by omega
+  simp [h1, h2]
+
+theorem dropWhile_head_false {α : Type} (p : α → Bool) (c : α) (cs : List α) (h : p c = false) :
+    (c :: cs).dropWhile p = c :: cs := by simp [List.dropWhile_cons, h]
+
+theorem digit_toNat {c : Char} (h : isAsciiDigit c = true) : 48 ≤ c.toNat ∧ c.toNat ≤ 57 := by
+  unfold isAsciiDigit at h; simpa using h
+
+/-- a non-empty digit string is a float literal for the grammar `floatAccepts`:
+    the two clauses of `LitDomain` do not overlap -/
+theorem digits_floatAccepts (f : Str) (hne : f ≠ []) (hd : f.all isAsciiDigit = true) :
+    floatAccepts f = true := by
+  have hall : ∀ c ∈ f, isAsciiDigit c = true := by simpa using hd
+  have hund : f.contains '_' = false := by
+    rw [List.contains_eq_mem]
+    simp only [decide_eq_false_iff_not]
+    intro hm
+    have := digit_toNat (hall _ hm)
+    revert this; decide
+  unfold floatAccepts
+  rw [hund]
+  simp only [Bool.false_eq_true, if_false]
+  obtain ⟨c, cs, rfl⟩ := List.exists_cons_of_ne_nil hne
+  have hc := hall c List.mem_cons_self
+  rw [dropWhile_head_false _ c cs (digit_not_space hc)]
+  obtain ⟨x, xs, hx⟩ : ∃ x xs, (c :: cs).reverse = x :: xs := by
+    cases h : (c :: cs).reverse with
+    | nil => simp at h
+    | cons x xs => exact ⟨x, xs, rfl⟩
+  have hxm : x ∈ c :: cs := List.mem_reverse.mp (hx ▸ List.mem_cons_self)
+  rw [hx, dropWhile_head_false _ x xs (digit_not_space (hall x hxm)), ← hx, List.reverse_reverse]
+  -- floatBody on a digit string
+  have hcn := digit_toNat hc
+  have hsign : dropSign (c :: cs) = c :: cs := by
+    unfold dropSign
+    split
+    · rename_i r heq
+      have : c = '+' := (List.cons.inj heq).1
+      rw [this] at hcn; exact absurd hcn (by decide)
+    · rename_i r heq
+      have : c = '-' := (List.cons.inj heq).1
+      rw [this] at hcn; exact absurd hcn (by decide)
+    · rfl
+  have hlow : lowerAscii c = c := by
+    unfold lowerAscii
+    have : ¬ (65 ≤ c.toNat ∧ c.toNat ≤ 90) := by omega
+    rw [if_neg this]
+  have hci : c ≠ 'i' := by intro e; rw [e] at hcn; revert hcn; decide
+  have hcnn : c ≠ 'n' := by intro e; rw [e] at hcn; revert hcn; decide
+  have htw : (c :: cs).takeWhile isAsciiDigit = c :: cs := List.takeWhile_eq_self_iff.mpr (fun y hy => hall y hy)
+  have hdw : (c :: cs).dropWhile isAsciiDigit = [] := List.dropWhile_eq_nil_iff.mpr (fun y hy => hall y hy)
+  unfold floatBody
+  simp only [hsign, List.map_cons, hlow, htw, hdw]
+  have n1 : ¬ (c :: cs.map lowerAscii = "inf".toList ∨ c :: cs.map lowerAscii = "infinity".toList ∨
+      c :: cs.map lowerAscii = "nan".toList) := by
+    intro h
+    rcases h with h | h | h
+    · exact hci (List.cons.inj h).1
+    · exact hci (List.cons.inj h).1
+    · exact hcnn (List.cons.inj h).1
+  rw [if_neg n1]
+  simp
+
+/-- a field `float` certainly rejects is not a digit string -/
+theorem floatRejects_parseNat {f : Str} (h : floatRejects f = true) : parseNat f = none := by
+  cases hp : parseNat f with
+  | none => rfl
+  | some n =>
+    exfalso
+    have h1 : (parseNat f).isSome = true := by rw [hp]; rfl
+    rw [parseNat_isSome] at h1
+    obtain ⟨hne, hd⟩ := (Bool.and_eq_true _ _).mp h1
+    have hne' : f ≠ [] := by intro e; rw [e] at hne; simp at hne
+    have := digits_floatAccepts f hne' hd
+    unfold floatRejects at h
+    rw [this] at h
+    simp at h
+
+/-- **inside the literal domain the model's `ValueError` is `float`'s.** For a
+    time value in `LitDomain`, the executable reader (digit strings only) raises
+    exactly when the string does not have four fields or has a field that
+    `float` certainly rejects (`floatRejects`, the CPython grammar). -/
+theorem parseTime_error_in_domain (fps : Nat) (brk : Rat) (v : Str) (hdom : LitDomain v = true) :
+    parseTime (ratArith fps brk) v = .error .value ↔
+      ((fields v).length ≠ 4 ∨ ∃ x ∈ fields v, floatRejects x = true) := by
+  constructor
+  · intro he
+    rcases parseTime_spec (ratArith fps brk) v with ⟨h, m, s, f, a, b, c, e, _, _, _, _, _, hok⟩ | ⟨hbad, _⟩
+    · rw [hok] at he; cases he
+    · rcases hbad with hlen | ⟨x, hx, hnone⟩
+      · exact Or.inl hlen
+      · by_cases hlen : (fields v).length = 4
+        · right
+          have hpn : parseNat x = none := (lit_rat_none fps brk x).mp hnone
+          unfold LitDomain at hdom
+          change (match fields v with
+            | [h, m, s, f] => [h, m, s, f].any floatRejects ||
+                [h, m, s, f].all (fun x => match parseNat x with | some n => decide (n < fieldBound) | none => false)
+            | _ => true) = true at hdom
+          rcases hf : fields v with _ | ⟨h, _ | ⟨m, _ | ⟨s, _ | ⟨f, _ | ⟨g, r⟩⟩⟩⟩⟩ <;> rw [hf] at hlen <;>
+            simp at hlen
+          rw [hf] at hdom hx
+          simp only at hdom
+          rcases (Bool.or_eq_true _ _).mp hdom with h1 | h1
+          · obtain ⟨y, hy, hr⟩ := List.any_eq_true.mp h1
+            exact ⟨y, hy, hr⟩
+          · have := List.all_eq_true.mp h1 x hx
+            rw [hpn] at this
+            simp at this
+        · exact Or.inl hlen
+  · intro h
+    rcases parseTime_spec (ratArith fps brk) v with ⟨h', m, s, f, a, b, c, e, hf, ha, hb, hc, he, _⟩ | ⟨_, herr⟩
+    · exfalso
+      rcases h with hlen | ⟨x, hx, hr⟩
+      · rw [hf] at hlen; simp at hlen
+      · have hpn := floatRejects_parseNat hr
+        have hnone : (ratArith fps brk).lit x = none := (lit_rat_none fps brk x).mpr hpn
+        rw [hf] at hx
+        simp only [List.mem_cons, List.not_mem_nil, or_false] at hx
+        rcases hx with rfl | rfl | rfl | rfl
+        · rw [hnone] at ha; cases ha
+        · rw [hnone] at hb; cases hb
+        · rw [hnone] at hc; cases hc
+        · rw [hnone] at he; cases he
+    · exact herr
+
+end ParseTime
 
 end Corpus
 end Pyndl
